@@ -226,7 +226,7 @@ type traceLine struct {
 
 var (
 	reLoc   = regexp.MustCompile(`([0-9a-fA-F]{2}):([0-9a-fA-F]{4})[|│]`)
-	reRegs  = regexp.MustCompile(`A=([0-9a-fA-F-]{4}) X=([0-9a-fA-F-]{4}) Y=([0-9a-fA-F-]{4})`)
+	reRegs  = regexp.MustCompile(`A[=:]([^ \t|│]{2,6})[ \t]+X[=:]([^ \t|│]{2,6})[ \t]+Y[=:]([^ \t|│]{2,6})`)
 	reFlags = regexp.MustCompile(`(?:^|[ |│\t])([nN-][vV-][mM-][xX-][dD-][iI-][zZ-][cC-])(?:[ |│\t\n]|$)`)
 	reHex4  = regexp.MustCompile(`[0-9a-f]{4}`)
 )
@@ -359,8 +359,10 @@ func checkTraceLine(t *traceLine, r Regs, ins []byte) (oracle, msg string) {
 			if !strings.HasSuffix(field, fmt.Sprintf("%02x", lo)) {
 				return "trace_register", fmt.Sprintf("%s is 8-bit and holds %02x; the line shows %q", name, lo, field)
 			}
-			pre := field[:2]
-			if pre != "--" && pre != fmt.Sprintf("%02x", hi) {
+			pre := field[:len(field)-2]
+			isHex := pre != "" && strings.Trim(pre, "0123456789abcdef") == ""
+			if isHex && pre != fmt.Sprintf("%02x", hi) {
+				// a filler ("--", "..", nothing) is fine; hex digits there must be the hidden byte
 				return "trace_register", fmt.Sprintf("%s high part shown as %q (low byte %02x, hidden byte %02x)", name, pre, lo, hi)
 			}
 			return "", ""
